@@ -1201,15 +1201,15 @@ Proof.
   injection H as H. eapply validate_expect_unused_wf; eassumption.
 Qed.
 
-(* the token loop of GrammarAST::warnings, with its skip test abstracted *)
+(* the token loop of GrammarAST::unused_symbols, with its skip test abstracted *)
 Lemma toks_wf : forall (c : str -> bool) (spans : list span), Forall W spans -> forall l k r,
-  (fix toks (l : list str) (k : nat) {struct l} : outcome (list (wkind * span)) :=
+  (fix toks (l : list str) (k : nat) {struct l} : outcome (list (wkind * str * span)) :=
      match l with
      | [] => Done []
      | t :: l' =>
          do rest <- toks l' (S k);
          if c t then Done rest
-         else do sp <- nth_checked spans k; Done ((UnusedToken, sp) :: rest)
+         else do sp <- nth_checked spans k; Done ((UnusedToken, t, sp) :: rest)
      end) l k = Done r -> Forall W (map snd r).
 Proof.
   intros c spans Hsp. induction l as [|t l IH]; intros k r H.
@@ -1223,9 +1223,9 @@ Proof.
     rewrite Forall_forall in Hsp. apply Hsp. eapply nth_error_In. exact Hn.
 Qed.
 
-Lemma warnings_wf : forall a l, awf a -> warnings a = Done l -> Forall W (map snd l).
+Lemma unused_wf : forall fu a l, awf a -> unused fu a = Done l -> Forall W (map snd l).
 Proof.
-  intros a l Ha H. unfold warnings in H.
+  intros fu a l Ha H. unfold unused in H.
   destruct Ha as (H1 & H2 & H3 & H4 & _).
   match type of H with obind ?x _ = _ => destruct x as [[seen_r seen_t]| |] end; cbn [obind] in H;
     try discriminate H.
@@ -1237,6 +1237,14 @@ Proof.
     destruct (_ || _) in Hin; [destruct Hin|]. destruct Hin as [Hin|[]]. injection Hin as _ <-.
     rewrite Forall_forall in H2. apply H2. exact Hr.
   - eapply toks_wf; [exact H4 | exact Hwt].
+Qed.
+
+Lemma warnings_wf : forall fu a l, awf a -> warnings fu a = Done l -> Forall W (map snd l).
+Proof.
+  intros fu a l Ha H. unfold warnings in H.
+  destruct (unused fu a) as [us| |] eqn:Hu; cbn [obind] in H; try discriminate H.
+  injection H as <-. rewrite map_map. cbn [snd].
+  exact (unused_wf fu a us Ha Hu).
 Qed.
 
 (* ---- from the structured invariant to the flat span lists ------------------ *)
@@ -1308,7 +1316,7 @@ End Validate.
 (* ======================================================================== *)
 Lemma yacc_error_spans_wellformed : yacc_error_spans_wellformed_stmt.
 Proof.
-  intros fixed fixed_aspan fixed_pspan kind src r Hrun. unfold run_case, yacc_new_gen in Hrun.
+  intros fixed fixed_aspan fixed_pspan fixed_precused kind src r Hrun. unfold run_case, yacc_new_gen in Hrun.
   destruct (header_present src); [injection Hrun as <-; exact I|].
   assert (Hfuel : byte_len src < fuel_for src) by (unfold fuel_for; lia).
   destruct (parse fixed fixed_aspan fixed_pspan kind src (byte_len src) (fuel_for src)) as [[st es]| |] eqn:Hp;
@@ -1321,7 +1329,7 @@ Proof.
   - apply error_spans_wf. apply Forall_app. split; [exact Hes|].
     destruct v as [e|]; [|constructor]. constructor; [|constructor].
     eapply complete_and_validate_wf; eassumption.
-  - destruct (warnings (ast st)) as [l| |] eqn:Hw; simpl; try constructor.
+  - destruct (warnings fixed_precused (ast st)) as [l| |] eqn:Hw; simpl; try constructor.
     eapply Forall_impl; [|eapply warnings_wf; eassumption]. intros sp. apply wfs_wf_span.
   - eapply Forall_impl; [|apply (ast_spans_wf fixed_aspan); exact Ha]. intros sp. apply wfs_wf_span.
   - apply (action_spans_start fixed_aspan). exact Ha.
@@ -1330,8 +1338,8 @@ Qed.
 
 Lemma yacc_action_span_boundary_fixed : yacc_action_span_boundary_fixed_stmt.
 Proof.
-  intros fixed fixed_pspan kind src a errs w Hrun.
-  pose proof (yacc_error_spans_wellformed fixed true fixed_pspan kind src _ Hrun) as H. simpl in H.
+  intros fixed fixed_pspan fixed_precused kind src a errs w Hrun.
+  pose proof (yacc_error_spans_wellformed fixed true fixed_pspan fixed_precused kind src _ Hrun) as H. simpl in H.
   destruct H as (_ & _ & _ & _ & H). apply H. reflexivity.
 Qed.
 
